@@ -318,8 +318,9 @@ func c02Cases(rep *report, r *rng, sink *checkCaseSink, s *schemeOps, h, pw stri
 						return
 					}
 				}
-				if s.name == "argon2" {
-					// judged by the extracted Coq model (RFC 9106 structure, real BLAKE2b), not by the library's own Key
+				if s.name == "argon2" && kind != "structural_edit" && kind != "digest_substitution" {
+					// a success after a cost, version or salt edit is judged by the extracted Coq model (RFC 9106 structure,
+					// real BLAKE2b), not by the library's own Key; member rotations (legitimate respellings) are left to it
 					if mk, ok := c02ArgonModelKey(pw2, rc.p); ok {
 						rep.bump("c02_success_judged_by_the_argon2_model")
 						if base64.RawStdEncoding.EncodeToString(mk) == rc.sum {
@@ -708,7 +709,7 @@ func c02ArgonModelKey(pw string, p hparams) ([]byte, bool) {
 	if k, ok := c02ModelMemo[req]; ok {
 		return k, true
 	}
-	if len(c02ModelMemo) >= 8 {
+	if len(c02ModelMemo) >= 12 {
 		return nil, false // the quick budget for model derivations is spent: judged by the library's own Key as before
 	}
 	got, err := c02Model.run(req)
